@@ -170,3 +170,115 @@ func c20Reexec(r *hk.Run, rng *hk.Rand) {
 }
 
 func stdB64(s string) string { return base64.StdEncoding.EncodeToString([]byte(s)) }
+
+// c20Clones: a client and its clones (Client.Clone), Basic / Bearer credentials set on any of
+// them at any time, fresh requests sent from any of them.  Oracle: every request carries the
+// credentials of ITS client - the last ones set on that client, or what its parent had when it
+// was cloned; nothing set on another client afterwards.
+func c20Clones(r *hk.Run, rng *hk.Rand) {
+	var mu sync.Mutex
+	got := map[string][]string{}
+	srv := &http.Server{Handler: http.HandlerFunc(func(w http.ResponseWriter, q *http.Request) {
+		mu.Lock()
+		got[q.Header.Get("X-Case")] = append([]string(nil), q.Header.Values("Authorization")...)
+		mu.Unlock()
+		w.WriteHeader(204)
+	})}
+	ln, err := net.Listen("tcp", "127.0.0.1:0")
+	if err != nil {
+		r.Notes = append(r.Notes, "listen failed: "+err.Error())
+		return
+	}
+	go srv.Serve(ln)
+	defer srv.Close()
+	base := "http://" + ln.Addr().String()
+
+	n := r.Scale(120, 2500)
+	for s := 0; s < n; s++ {
+		clients := []*req.Client{req.C()}
+		want := []string{""} // expected Authorization per client ("" = none)
+		var ops, readable, obs []string
+		key := ""
+		sends := 0
+		ok := true
+		nOps := rng.Range(5, 12)
+		for k := 0; (k < nOps || sends < 2) && ok; k++ {
+			i := rng.Intn(len(clients))
+			op := rng.Intn(6)
+			if k >= nOps-1 {
+				op = 5
+			}
+			switch {
+			case op <= 1: // set credentials on client i
+				if rng.Chance(60) {
+					u, _ := genCred(rng, false)
+					p, _ := genCred(rng, true)
+					if len(u) > 200 {
+						u = u[:200]
+					}
+					if len(p) > 200 {
+						p = p[:200]
+					}
+					clients[i].SetCommonBasicAuth(u, p)
+					want[i] = "Basic " + stdB64(u+":"+p)
+					ops = append(ops, fmt.Sprintf("KBasic %d %s %s", i, pks(u), pks(p)))
+				} else {
+					t, _ := genToken(rng)
+					if len(t) > 200 {
+						t = t[:200]
+					}
+					clients[i].SetCommonBearerAuthToken(t)
+					want[i] = "Bearer " + t
+					ops = append(ops, fmt.Sprintf("KBearer %d %s", i, pks(t)))
+				}
+				readable = append(readable, fmt.Sprintf("client%d: %s", i, want[i]))
+				key += fmt.Sprintf("|%d=%s", i, want[i])
+			case op == 2 && len(clients) < 5: // clone client i
+				clients = append(clients, clients[i].Clone())
+				want = append(want, want[i])
+				ops = append(ops, fmt.Sprintf("KClone %d", i))
+				readable = append(readable, fmt.Sprintf("client%d := client%d.Clone()", len(clients)-1, i))
+				key += fmt.Sprintf("|c%d", i)
+			default: // send from client i
+				id := fmt.Sprintf("cl%d-%d", s, sends)
+				_, err := clients[i].R().SetHeader("X-Case", id).Get(base + "/clone")
+				mu.Lock()
+				vs, seen := got[id]
+				mu.Unlock()
+				ops = append(ops, fmt.Sprintf("KSend %d", i))
+				readable = append(readable, fmt.Sprintf("send from client%d", i))
+				key += fmt.Sprintf("|s%d", i)
+				sends++
+				in := map[string]interface{}{"sequence": s, "ops": strings.Join(readable, "; ")}
+				if err != nil || !seen || len(vs) > 1 {
+					r.Fail(hk.Failure{Sig: "clone:not-transmitted", What: "request did not reach the origin with at most one Authorization header", Input: in, Got: fmt.Sprint(err, vs)})
+					ok = false
+					break
+				}
+				g := ""
+				if len(vs) == 1 {
+					g = vs[0]
+				}
+				if g != want[i] {
+					r.Fail(hk.Failure{Sig: "clone:wrong-credentials", What: "a request does not carry the credentials of its own client (credentials set on another client / clone leaked)",
+						Input: in, Got: g, Want: want[i]})
+				}
+				if len(vs) == 1 {
+					obs = append(obs, "Some "+pks(vs[0]))
+				} else {
+					obs = append(obs, "None")
+				}
+			}
+		}
+		for _, c := range clients {
+			c.GetTransport().CloseIdleConnections()
+		}
+		if !ok {
+			continue
+		}
+		r.Count("clone.sequences")
+		r.Count(fmt.Sprintf("clone.clients=%d", len(clients)))
+		r.Add(hk.Case{Coq: fmt.Sprintf("CloneCase %s %s", hk.CoqList(ops), hk.CoqList(obs)),
+			Desc: map[string]interface{}{"kind": "clone", "ops": readable}}, "clone"+key, len(clients) > 1)
+	}
+}
